@@ -21,8 +21,8 @@ from hypothesis import strategies as st
 from . import genir
 from .core import Discard, HarnessError
 
-PROFILE = genir.Profile(name="roundtrip", undef=True, nonfinite=True, permute_blocks=True, split_init=35)
-PROFILE_BIG = genir.Profile(name="roundtrip-big", undef=True, nonfinite=True, permute_blocks=True, max_blocks=12, max_ins=14, max_funcs=4, split_init=35)
+PROFILE = genir.Profile(name="roundtrip", undef=True, nonfinite=True, permute_blocks=True, split_init=35, dup_args_pct=60)
+PROFILE_BIG = genir.Profile(name="roundtrip-big", undef=True, nonfinite=True, permute_blocks=True, max_blocks=12, max_ins=14, max_funcs=4, split_init=35, dup_args_pct=60)
 
 FEATURES = ["init", "volatile", "inv", "rot", "copy", "undef", "fexp", "fwd", "uscore", "asm", "nameclash"]
 
